@@ -39,9 +39,11 @@ struct SharedCore
 template<class T2, class T>
 const SharedCore<T2>* cast_(const SharedCore<T>* c)
 {
-	SharedCore<T2>* c2 = (SharedCore<T2>*)c;
-	c2->p = c->p;
-	return c2;
+	// only checks at compile time that a T* converts to a T2*: the core is shared by all handles (and threads) and must
+	// not be written here (the store raced with readers, and with a non-first base class it redirected every handle)
+	T2* check = (T*)0;
+	(void)check;
+	return (const SharedCore<T2>*)c;
 }
 
 
